@@ -454,6 +454,12 @@ def gen_blocks(ctx, emit):
             emit("block_rt %s %s honest" % (coin, blob.hex()))
             emit("block_rt %s %s tampered" % (coin, M.random_block(rng, n, bad_root=True)[0].hex()))
             emit("block_rt %s %s tampered" % (coin, tampered_block(rng, n).hex()))
+        # a sweep transaction inside the block: input / output counts on both sides of the 1-byte / 3-byte count encoding,
+        # with and without witness data (each coin's own transaction parser reads the counts)
+        for nin_, nout_ in ((252, 1), (253, 1), (254, 2), (300, 1), (1, 253), (2, 300), (253, 253)):
+            for wit in (False, True):
+                emit("block_rt %s %s honest" % (coin, M.random_block(rng, rng.choice([1, 2, 3]), fat=(rng.randrange(3), nin_, nout_, wit))[0].hex()),
+                     "fat-transaction")
         for _ in range(ctx.n(80, 4000)):
             n = rng.choice([1, 1, 2, 3, 5, 6, 11, 13])
             kind = rng.randrange(6)
